@@ -137,7 +137,7 @@ ObjSchema(ctx, dir, cls, seen) ==
       normal == SelectSeq(fs, LAMBDA f : IsNormal(f))
       fieldSchema(f) == SchemaOf(ctx, dir, FType(f), f.cons, seen)
       req(f) == IF dir = "d" THEN FRequired(f)
-                ELSE IF K.kind = "typeddict" THEN FRequired(f) ELSE ~Skippable(ctx, f)
+                ELSE IF K.kind = "typeddict" THEN FRequired(f) /\ ~Skippable(ctx, f) ELSE ~Skippable(ctx, f)
       props == [i \in DOMAIN normal |-> <<Ext(ctx, normal[i]), fieldSchema(normal[i])>>]
                \o (IF dir = "s" THEN [i \in DOMAIN K.smethods |->
                                         <<Ali(ctx, K.smethods[i].alias), SchemaOf(ctx, dir, K.smethods[i].rtype, <<>>, seen)>>]
